@@ -58,6 +58,15 @@ def canon_model(a):
     return ["bad", a]
 
 
+def _all_match(pairs):
+    # (a plain loop, not all(<generator>): a generator driven by a built-in costs interpreter-internal stack per level, which
+    #  bounds how deeply nested a value tree can be compared whatever the recursion limit is set to)
+    for a, b in pairs:
+        if not match_val(a, b):
+            return False
+    return True
+
+
 def match_val(m, v):
     """does the python value v equal the model value m (decoded s-expression)?"""
     if m == "none":
@@ -78,10 +87,10 @@ def match_val(m, v):
             return False
         return (math.isnan(f) and math.isnan(v)) or f == v
     if h == "list":
-        return isinstance(v, list) and len(v) == len(m) - 1 and all(match_val(a, b) for a, b in zip(m[1:], v))
+        return isinstance(v, list) and len(v) == len(m) - 1 and _all_match(zip(m[1:], v))
     if h == "tup":
         if isinstance(v, tuple):
-            return len(v) == len(m) - 1 and all(match_val(a, b) for a, b in zip(m[1:], v))
+            return len(v) == len(m) - 1 and _all_match(zip(m[1:], v))
         fam = getattr(v, "family", None)   # SocketAddress objects
         if fam is not None and len(m) == 3:
             return match_val(m[1], getattr(fam, "name", str(fam))) and match_val(m[2], v.address)
@@ -89,7 +98,7 @@ def match_val(m, v):
     if h == "map":
         if not isinstance(v, dict) or len(v) != len(m) - 1:
             return False
-        return all(k in v and match_val(x, v[k]) for k, x in m[1:])
+        return _all_match([(x, v[k]) if k in v else (["s", ""], None) for k, x in m[1:]])
     if h == "wrap":
         return isinstance(v, zcvdt.Wrapped) and v.tag == m[1] and match_val(m[2], v.inner)
     if h == "sect":
@@ -102,7 +111,7 @@ def match_val(m, v):
         attrs = v.getSectionAttributes()
         if list(attrs) != [a for a, _ in m[3]]:
             return False
-        return all(match_val(x, getattr(v, a)) for a, x in m[3])
+        return _all_match([(x, getattr(v, a)) for a, x in m[3]])
     return False
 
 
